@@ -2,6 +2,7 @@ import TexcraftModel.Util.Proto
 import TexcraftModel.Model.C11
 import TexcraftModel.Model.C11Bridge
 import TexcraftModel.Model.C11Norm
+import TexcraftModel.Model.C11Words
 
 /-! Driver for C11. A *program* is written
 `<rb|-1> <lb|-1> <n> (<next|-1> <right> <kind> <a> <b>)*n <m> (<char> <entry>)*m <k> <kern>*k`
@@ -15,6 +16,10 @@ with kind 0 `kern a`, 1 `kernAt a`, 2 `lig a b`, 3 `redirect a (b≠0)`.
 * `reach <program>`             → per word `<reachable 0|1> <adjusted skip | -1>` (`reachable_array`, `ReachableIter`)
 * `items <program>`             → the printed LIGTABLE: `0 c` label, `1` label boundarychar, `2 right kind a b` step, `3` stop, `4 n` skip
 * `norm <program>`              → `<printParse program> | <normalise program> | nwf=<0|1>` (entries sorted by character)
+* `rawsem <raw> <raw>`          → `same` or the first pair on which `C05.rule` differs, both programs decoded by Lean
+                                   from the bytes: `<raw>` = `<n> (<b0> <b1> <b2> <b3>)*n <m> (<char> <remainder>)*m <k> <kern>*k`
+* `safe7 <raw> <nl> (<char> <next>)*nl <nr> (<char> <top> <mid> <bot> <rep>)*nr`
+                                 → `1`/`0`: PLtoTF's seven-bit safety of the font (`safe7`; piece byte 0 = absent)
 * `dims <max> <n> <v>*n`        → `<table>* | <index of each v>*` (early-exit path of `compress`), or `lossy`
 -/
 open C11 Proto
@@ -111,6 +116,40 @@ def insertByChar (x : Nat × Nat) : List (Nat × Nat) → List (Nat × Nat)
 
 def sortByChar (l : List (Nat × Nat)) : List (Nat × Nat) := l.foldr insertByChar []
 
+def decWords : Nat → Cur → Option (List Word × Cur)
+  | 0, c => some ([], c)
+  | n + 1, a :: b :: c :: d :: t =>
+    match decWords n t with
+    | some (ws, t) => some (⟨a.toNat, b.toNat, c.toNat, d.toNat⟩ :: ws, t)
+    | none => none
+  | _, _ => none
+
+/-- A raw lig/kern sub-file with the lig tags of the existing characters and the kerns:
+decoded by `decodeRaw`, entry points unpacked by `unpackAll`. -/
+def decRaw (c : Cur) : Option (Req × Cur) :=
+  match c with
+  | n :: t =>
+    match decWords n.toNat t with
+    | some (ws, m :: t) =>
+      match decPairs m.toNat t with
+      | some (es, k :: t) =>
+        match takeN k.toNat t with
+        | some (ks, t) =>
+          let p := decodeRaw ws
+          some (⟨p, unpackAll p.instrs es, ks⟩, t)
+        | none => none
+      | _ => none
+    | _ => none
+  | _ => none
+
+def decQuints : Nat → Cur → Option (List (Nat × List Nat) × Cur)
+  | 0, c => some ([], c)
+  | n + 1, ch :: a :: b :: c :: d :: t =>
+    match decQuints n t with
+    | some (rs, t) => some ((ch.toNat, ([a, b, c].filter (· ≠ 0)).map Int.toNat ++ [d.toNat]) :: rs, t)
+    | none => none
+  | _, _ => none
+
 def handle (line : String) : String :=
   match words line with
   | "pack" :: ws =>
@@ -167,6 +206,28 @@ def handle (line : String) : String :=
       let a := printParse r.prog r.entries
       let b := normalise r.prog r.entries
       s!"{showInts (encProgram a.1 (sortByChar a.2) [])} | {showInts (encProgram b.1 (sortByChar b.2) [])} | nwf={b2i (nwf r.prog r.entries)}"
+    | _ => "bad-request"
+  | "rawsem" :: ws =>
+    match ints? ws >>= decRaw with
+    | some (a, rest) =>
+      match decRaw rest with
+      | some (b, []) =>
+        let pa := toC05 a.prog a.entries a.kerns
+        let pb := toC05 b.prog b.entries b.kerns
+        match firstRuleDiff pa pb with
+        | none => if a.prog.rb == b.prog.rb then "same" else s!"boundary char differs: {repr a.prog.rb} vs {repr b.prog.rb}"
+        | some (l, r) => s!"rule differs on ({showOptNat l},{r}): {repr (C05.rule pa l r)} vs {repr (C05.rule pb l r)}"
+      | _ => "bad-request"
+    | _ => "bad-request"
+  | "safe7" :: ws =>
+    match ints? ws >>= decRaw with
+    | some (a, nl :: rest) =>
+      match decPairs nl.toNat rest with
+      | some (lists, nr :: rest) =>
+        match decQuints nr.toNat rest with
+        | some (recipes, []) => if safe7 a.prog.instrs a.entries lists recipes then "1" else "0"
+        | _ => "bad-request"
+      | _ => "bad-request"
     | _ => "bad-request"
   | "dims" :: ws =>
     match ints? ws with
